@@ -118,6 +118,11 @@ def _strip_empty_styles(grid):
     return out
 
 
+def _is_asset_sheet(sname, asset):
+    """'<asset> In-Out', '<asset> Tax', '<asset>_<year>' ... - not 'W <asset> ...' nor '<asset>.e ...' (other assets whose names contain this one)."""
+    return sname == asset or (sname.startswith(asset) and sname[len(asset)] in " _")
+
+
 def project_asset(reports, asset, prefix=""):
     """Everything the reports of a run say about one asset, in a form comparable between a run on
     all assets, a run with -a <asset> and a run on a world reduced to that asset."""
@@ -128,8 +133,8 @@ def project_asset(reports, asset, prefix=""):
         order = sheets.get("__order__", [])
         if kind == "rp2_full_report":
             for sname in order:
-                if asset in sname:
-                    proj["full:%s" % sname.replace(asset, "<A>")] = sheets[sname]
+                if _is_asset_sheet(sname, asset):
+                    proj["full:%s" % ("<A>" + sname[len(asset):])] = sheets[sname]
             # summary lines of the asset: the sheet that is neither the legend nor an asset sheet
             for sname in order:
                 grid = sheets[sname]
@@ -139,12 +144,12 @@ def project_asset(reports, asset, prefix=""):
                         val, formula = r[1][1], r[1][2]
                         if val == asset or (formula and formula.rstrip().endswith('"%s")' % asset)):
                             lines.append(r)
-                if lines and asset not in sname:
+                if lines and not _is_asset_sheet(sname, asset):
                     proj["full:summary-lines"] = sorted(_strip_empty_styles(lines), key=repr)
         elif kind.startswith("tax_report_jp"):
             for sname in order:
-                if asset in sname:
-                    proj["jp:%s" % sname.replace(asset, "<A>")] = sheets[sname]
+                if _is_asset_sheet(sname, asset):
+                    proj["jp:%s" % ("<A>" + sname[len(asset):])] = sheets[sname]
                 else:
                     rows = _rows_with(sheets[sname], 0, asset)
                     if rows:
